@@ -21,30 +21,6 @@ structure CellRef where
   rowAbs : Bool
   deriving Repr, DecidableEq
 
-/-- `cls` fields: the operand class of the token (0 reference, 1 value, 2 array: opcode + 0x20·cls);
-    a layout choice that does not show in the text -/
-inductive Expr where
-  | ref (cls : Nat) (a : CellRef)
-  | area (cls : Nat) (a b : CellRef)
-  | ref3d (cls ixti : Nat) (a : CellRef)
-  | area3d (cls ixti : Nat) (a b : CellRef)
-  | name (cls idx : Nat)
-  | int (n : Nat)
-  | num (bits : Nat)
-  | str (wide : Bool) (s : List Char)
-  | bool (b : Bool)
-  | err (code : Nat)
-  | missing
-  | uplus (e : Expr)
-  | uminus (e : Expr)
-  | percent (e : Expr)
-  | paren (e : Expr)
-  | sum (e : Expr)
-  | bin (op : Nat) (a b : Expr)
-  | func (cls iftab : Nat) (args : List Expr)
-  | funcVar (cls iftab : Nat) (args : List Expr)
-  deriving Repr
-
 inductive Tok where
   | ref (cls : Nat) (a : CellRef)
   | area (cls : Nat) (a b : CellRef)
@@ -69,9 +45,45 @@ inductive Tok where
   | attrSum
   /-- PtgAttrSemi / If / Goto / Baxcel (etpg ∈ {1, 2, 8, 0x20, 0x21}) with their 2-byte operand: no text -/
   | attrSkip (etpg w : Nat)
+  /-- PtgAttrChoose: `cOffset = offs.length - 1` then `cOffset + 1` 16-bit jump offsets (written after the selector of
+      `CHOOSE`): no text -/
+  | attrChoose (offs : List Nat)
   | func (cls iftab : Nat)
   | funcVar (cls argc iftab : Nat)
   deriving Repr, DecidableEq
+
+/-- tokens that only move the cursor (jump tables of `IF` / `CHOOSE`, volatile marker): no text, no stack effect -/
+def Tok.isInert : Tok → Bool
+  | .attrSkip _ _ => true
+  | .attrChoose _ => true
+  | _ => false
+
+/-- `cls` fields: the operand class of the token (0 reference, 1 value, 2 array: opcode + 0x20·cls);
+    a layout choice that does not show in the text -/
+inductive Expr where
+  | ref (cls : Nat) (a : CellRef)
+  | area (cls : Nat) (a b : CellRef)
+  | ref3d (cls ixti : Nat) (a : CellRef)
+  | area3d (cls ixti : Nat) (a b : CellRef)
+  | name (cls idx : Nat)
+  | int (n : Nat)
+  | num (bits : Nat)
+  | str (wide : Bool) (s : List Char)
+  | bool (b : Bool)
+  | err (code : Nat)
+  | missing
+  | uplus (e : Expr)
+  | uminus (e : Expr)
+  | percent (e : Expr)
+  | paren (e : Expr)
+  | sum (e : Expr)
+  | bin (op : Nat) (a b : Expr)
+  | func (cls iftab : Nat) (args : List Expr)
+  | funcVar (cls iftab : Nat) (args : List Expr)
+  /-- an inert token written right after the sub-expression (where Excel puts PtgAttrIf / PtgAttrGoto / PtgAttrChoose /
+      PtgAttrSemi inside `IF(…)` and `CHOOSE(…)`); it does not show in the text -/
+  | inert (t : Tok) (e : Expr)
+  deriving Repr
 
 /-! ### A1 text -/
 
@@ -134,6 +146,7 @@ def renderA1 (env : Env) : Expr → List Char
   | .bin op a b => renderA1 env a ++ opName op ++ renderA1 env b
   | .func _ iftab args => funcName iftab ++ '(' :: renderArgs env args ++ [')']
   | .funcVar _ iftab args => funcName iftab ++ '(' :: renderArgs env args ++ [')']
+  | .inert _ e => renderA1 env e
 def renderArgs (env : Env) : List Expr → List Char
   | [] => []
   | [a] => renderA1 env a
@@ -169,6 +182,7 @@ def toRpn : Expr → List Tok
   | .bin op a b => toRpn a ++ toRpn b ++ [.binop op]
   | .func c iftab args => toRpnArgs args ++ [.func c iftab]
   | .funcVar c iftab args => toRpnArgs args ++ [.funcVar c args.length iftab]
+  | .inert t e => toRpn e ++ [t]
 def toRpnArgs : List Expr → List Tok
   | [] => []
   | a :: rest => toRpn a ++ toRpnArgs rest
@@ -223,6 +237,7 @@ def encXls : Tok → Bytes
   | .paren => [0x15]
   | .attrSum => [0x19, 0x10, 0, 0]
   | .attrSkip e w => 0x19 :: UInt8.ofNat e :: le16 w
+  | .attrChoose offs => 0x19 :: 0x04 :: le16 (offs.length - 1) ++ unitsLe offs
   | .func c iftab => opc 0x21 c :: le16 iftab
   | .funcVar c argc iftab => opc 0x22 c :: UInt8.ofNat argc :: le16 iftab
 
@@ -251,6 +266,7 @@ def encXlsb : Tok → Bytes
   | .paren => [0x15]
   | .attrSum => [0x19, 0x10, 0, 0]
   | .attrSkip e w => 0x19 :: UInt8.ofNat e :: le16 w
+  | .attrChoose offs => 0x19 :: 0x04 :: le16 (offs.length - 1) ++ unitsLe offs
   | .func c iftab => opc 0x21 c :: le16 iftab
   | .funcVar c argc iftab => opc 0x22 c :: UInt8.ofNat argc :: le16 iftab
 
@@ -290,6 +306,7 @@ def Tok.wf (xls : Bool) : Tok → Prop
   | .paren => True
   | .attrSum => True
   | .attrSkip e w => e ∈ [0x01, 0x02, 0x08, 0x20, 0x21] ∧ w < 65536
+  | .attrChoose offs => 1 ≤ offs.length ∧ offs.length ≤ 65536 ∧ ∀ o ∈ offs, o < 65536
   | .func c iftab => c < 3 ∧ iftab < Gen.ftabLen
   | .funcVar c argc iftab => c < 3 ∧ argc < 256 ∧ iftab < Gen.ftabLen
 
